@@ -7,6 +7,7 @@ mod lattice;
 mod limits;
 mod oracle;
 mod robots;
+mod stack;
 mod util;
 
 fn main() {
@@ -21,6 +22,7 @@ fn main() {
         ("record", "samples") => limits::record_samples(&args[3]),
         ("replay", "chain") => chain::replay(&args[3], &args[4]),
         ("record", "fk") => chain::record(&args[3]),
+        ("replay", "stack") => stack::replay(&args[3], &args[4]),
         _ => {
             eprintln!("unknown command {:?}", &args[1..]);
             std::process::exit(2);
